@@ -561,7 +561,12 @@ func tblDamage(c *Ctx, tc tblCase, tape *simrt.Tape) (vs []tblV, evals int) {
 	open := func(onRead bool) (sstables.SSTableReaderI, error) {
 		opts := []sstables.ReadOption{sstables.ReadBasePath(dir), sstables.ReadWithKeyComparator(skiplist.BytesComparator{}), sstables.ReadBufferSizeBytes(tc.ReadBuf), tblLoader(tc)}
 		if onRead {
-			opts = append(opts, sstables.SkipHashCheckOnLoad(), sstables.EnableHashCheckOnReads())
+			// (the two options are independent of each other: either order)
+			if tc.Seed%2 == 0 {
+				opts = append(opts, sstables.SkipHashCheckOnLoad(), sstables.EnableHashCheckOnReads())
+			} else {
+				opts = append(opts, sstables.EnableHashCheckOnReads(), sstables.SkipHashCheckOnLoad())
+			}
 		}
 		return sstables.NewSSTableReader(opts...)
 	}
